@@ -63,7 +63,8 @@ Serialize(comps, off, key) ==
 \* ---------------------------------------------------------------- lenient serialiser (C05)
 \* Writes a file from a descriptor whose fields may be inconsistent; MACs are computed over the bytes actually
 \* written, so only the structural rule under test is broken.  Entry descriptor e:
-\*   [c, lenD, adrD, totD, declared, dlenD, dup, tlenD, emac, pmac]   (D = delta to the consistent value)
+\*   [c, lenD, adrD, totD, declared, dlenD, dup, tlenD, stray, emac, pmac]   (D = delta to the consistent value;
+\*    stray = cells inserted between the description and the entry MAC, covered by the entry length and the MAC)
 \*   emac \in {"valid","idx-1","idx+1","otherkey","garbage"}   pmac \in {"valid","otherkey","garbage"}
 \* File descriptor d: [ents, dirD, sentinel \in {"present","absent","nonzero"}, trailing (cells), swap (BOOLEAN)]
 Nat0(x) == IF x < 0 THEN 0 ELSE x
@@ -81,12 +82,12 @@ RawEntry(e, i, adr, key) ==
         t    == RawTlvs(e)
         pm   == IF e.pmac = "valid" THEN Mac(key, 0, raw) ELSE IF e.pmac = "otherkey" THEN Mac(OtherKey(key), 0, raw) ELSE Garbage(W_MAC)
         body == BE(Nat0(adr + e.adrD), W_ADR) \o BE(Nat0(Len(raw) + e.totD), W_LEN) \o BE(e.declared, W_LEN) \o pm
-                \o <<Cell(Nat0(Len(t) + e.dlenD))>> \o t
+                \o <<Cell(Nat0(Len(t) + e.dlenD))>> \o t \o e.stray
         em   == IF e.emac = "valid" THEN Mac(key, i, body) ELSE IF e.emac = "idx-1" THEN Mac(key, i - 1, body)
                 ELSE IF e.emac = "idx+1" THEN Mac(key, i + 1, body) ELSE IF e.emac = "otherkey" THEN Mac(OtherKey(key), i, body)
                 ELSE Garbage(W_MAC)
     IN  <<Cell(Nat0(Len(body) + W_MAC + e.lenD))>> \o body \o em
-RawEntryLen(e) == 1 + W_ADR + 2 * W_LEN + W_MAC + 1 + Len(RawTlvs(e)) + W_MAC
+RawEntryLen(e) == 1 + W_ADR + 2 * W_LEN + W_MAC + 1 + Len(RawTlvs(e)) + Len(e.stray) + W_MAC
 RECURSIVE RawDirLen(_, _)
 RawDirLen(ents, i) == IF i > Len(ents) THEN 0 ELSE RawEntryLen(ents[i]) + RawDirLen(ents, i + 1)
 RECURSIVE RawEntries(_, _, _, _, _)
@@ -106,10 +107,10 @@ SerializeRaw(d, off, key) ==
         dir   == RawEntries(d.ents, order, 1, adrs, key) \o sent
     IN  BE(Nat0(Len(dir) + d.dirD), W_LEN) \o dir \o RawPayloads(d.ents, 1, key) \o d.trailing
 NominalEntry(c) == [c |-> c, lenD |-> 0, adrD |-> 0, totD |-> 0, declared |-> c.alen, dlenD |-> 0, dup |-> FALSE, tlenD |-> 0,
-                    emac |-> "valid", pmac |-> "valid"]
+                    stray |-> <<>>, emac |-> "valid", pmac |-> "valid"]
 EntryDeviations(e) == (IF e.lenD # 0 THEN 1 ELSE 0) + (IF e.adrD # 0 THEN 1 ELSE 0) + (IF e.totD # 0 THEN 1 ELSE 0)
                       + (IF e.declared # e.c.alen THEN 1 ELSE 0) + (IF e.dlenD # 0 THEN 1 ELSE 0) + (IF e.dup THEN 1 ELSE 0)
-                      + (IF e.tlenD # 0 THEN 1 ELSE 0) + (IF e.emac # "valid" THEN 1 ELSE 0) + (IF e.pmac # "valid" THEN 1 ELSE 0)
+                      + (IF e.tlenD # 0 THEN 1 ELSE 0) + (IF e.stray # <<>> THEN 1 ELSE 0) + (IF e.emac # "valid" THEN 1 ELSE 0) + (IF e.pmac # "valid" THEN 1 ELSE 0)
 RECURSIVE SumDev(_, _)
 SumDev(ents, i) == IF i > Len(ents) THEN 0 ELSE EntryDeviations(ents[i]) + SumDev(ents, i + 1)
 Deviations(d) == SumDev(d.ents, 1) + (IF d.dirD # 0 THEN 1 ELSE 0) + (IF d.sentinel # "present" THEN 1 ELSE 0)
